@@ -559,7 +559,7 @@ static void judge_frames(const CaseD &c, const std::string &fmt, const std::vect
       J w = W(); w.i("frame", (long long)f).vec("box_read_rowmajor", flat(G.box)).vec("box_written_rowmajor", flat(E.box));
       bool lost = G.box.isZero(0) && !E.box.isZero(0);
       if (lost) {  // nothing came back at all
-        judge(fmt, "box-diagonal", false, fmt + "/box-missing", "the box is not stored / not read: it comes back as zero", w);
+        judge(fmt, "box-diagonal", false, fmt + (c.boxkind == 2 ? "/box-missing-triclinic" : "/box-missing"), "the box is not stored / not read: it comes back as zero", w);
         continue;
       }
       judge(fmt, "box-diagonal", worstd <= 1, fmt + "/box-diagonal", "box diagonal differs after the round trip", w);
@@ -718,7 +718,7 @@ static void roundtrip(const CaseD &c, const std::string &file, const std::string
       }
     }
     if (fmt == "pdb" && !ff.empty() && c.boxkind != 0)
-      judge(fmt, "box-diagonal", ff[0].cryst1, "pdb/box-missing", "the pdb writer emits no CRYST1 record: the box is lost", case_json(c, 1).s("file_head", slurp(file, 600)));
+      judge(fmt, "box-diagonal", ff[0].cryst1, c.boxkind == 2 ? "pdb/box-missing-triclinic" : "pdb/box-missing", "the pdb writer emits no CRYST1 record: the box is lost", case_json(c, 1).s("file_head", slurp(file, 600)));
   }
   if (R.want_sample() && c.n <= 3) R.sample(case_json(c, 1).b("reread_ok", reread));
 
